@@ -97,6 +97,12 @@ PathExprs(u_) == {BinA(o, p, q) : o \in {"=", "!=", "<", "and", "or", "+"}, p \i
              \cup {F1A(f, p) : f \in {"string", "number", "boolean", "not", "string-length"}, p \in PathOperands}
              \cup {F2A("concat", p, q) : p \in PathOperands, q \in PathOperands}
 
+\* a comparison with a multi-valued (or absent) leaf on the left, then keyed paths later in the same expression
+LLFirst(u_) == {BinA(o, BinA(c, Rel1(l), r), p) : o \in {"and", "or"}, c \in {"=", "!=", "<"}, l \in {"vmulti", "vm2", "vabs", "vnum"},
+                                                r \in {L("x"), N1, Rel1("vmulti")},
+                                                p \in {q \in PathOperands : TRUE} \cup {BinA("=", Path("abs", <<StP("a", <<Pred("k", L("x"))>>), St("b")>>), L("y"))}}
+               \cup {BinA("and", p, BinA("=", Rel1("vmulti"), L("x"))) : p \in PathOperands}
+               \cup {BinA("and", BinA("=", Rel1("vmulti"), L("1")), BinA("and", Path("rel", <<StP("a", <<Pred("k", L("x")), Pred("j", Path("cur", <<St("z")>>))>>)>>), Path("abs", <<StP("b", <<Pred("m", L("y"))>>)>>)))}
 \* ---- C03 families (precedence, associativity) ----
 OpA == N("7", Num(7))
 OpB == N("2", Num(2))
@@ -134,7 +140,8 @@ Family(i) ==
     [] i = 15 -> Chain2(OpA, OpB, OpC) \cup Chain2Neg(0)
     [] i = 16 -> Chain3(0)
     [] i = 17 -> Chain2Mixed(0)
-NFamilies == 17
+    [] i = 18 -> LLFirst(0)
+NFamilies == 18
 \* families 9 and 10 are big and come in NChunks chunks; the others are chunk 0 only
 FamilyC(i, c, C) ==
   IF i = 9 THEN D2Bin(ArithOps, c, C) ELSE IF i = 10 THEN D2Bin(CmpOps \cup BoolOps, c, C)
@@ -162,7 +169,7 @@ RandPreds == LET k == RandomElement(1..6) IN
                [] k = 5 -> <<Pred("k", RandOpnd), Pred("j", RandOpnd)>>
                [] OTHER -> <<Pred("m", RandOpnd), Pred("j", RandOpnd), Pred("kk", RandOpnd)>>
 RandStep == LET k == RandomElement(1..5) IN
-            IF k = 1 THEN St("..") ELSE IF k = 2 THEN StX("p", RandomElement({"a", "b", "c"})) ELSE StP(RandomElement({"a", "b", "c", "vnum"}), RandPreds)
+            IF k = 1 THEN St("..") ELSE IF k = 2 THEN StX("p", RandomElement({"a", "b", "c"})) ELSE StP(RandomElement({"a", "b", "c", "vnum", "vmulti", "vabs"}), RandPreds)
 RandSteps(n) == IF n = 0 THEN << >> ELSE <<RandStep>> \o RandSteps(n - 1)
 RandPath == LET k == RandomElement(1..7) IN
             IF k = 7 THEN Deref(Path(RandomElement({"abs", "rel", "cur"}), RandSteps(RandomElement(1..3))), RandSteps(RandomElement(0..3)))
